@@ -66,6 +66,17 @@ def cases(seed, tier):
                                 "emode": emode, "batch": 0, "BA": [n], "BB": [], "dtype": "float64", "spectrum": "spd", "n": n,
                                 "ncols": n, "tol": "default", "special": None, "kappa": 3.0})
                     k += 1
+    # directed: complex shifts (the shifted system is not Hermitian even if A and M are) for every method and operator class
+    k = 0
+    for n in (3, 6, 9):
+        for method in METHODS:
+            for emode in ("E", "EM"):
+                for kind in ("mv_rmv", "herm_mv", "dense", "adj_mv"):
+                    for spectrum in ("spd", "nonherm_pd"):
+                        out.append({"group": "directed_complexE", "seed": sub_seed(seed, "c01c", k), "method": method, "opkind": kind,
+                                    "emode": emode, "batch": k % len(gen.BATCH_TUPLES_4), "dtype": "complex128", "spectrum": spectrum,
+                                    "n": n, "ncols": 1 + k % 3, "tol": "default", "special": None, "kappa": 3.0, "complexE": True})
+                        k += 1
     return out
 
 
@@ -156,7 +167,7 @@ def run_case(desc):
     if emode != "none":
         scale = 1.0
         for attempt in range(8):
-            if dt.is_complex and rng.random() < 0.6 and attempt < 6:
+            if dt.is_complex and (rng.random() < 0.6 or desc.get("complexE")) and attempt < 6:
                 E = torch.randn(*BE, ncols, dtype=dt, generator=tgen) * scale
             else:
                 E = (torch.randn(*BE, ncols, dtype=rdt, generator=tgen) * scale).to(dt)
